@@ -50,6 +50,35 @@ type Exec struct {
 	paramOrd []string
 	inlineStack []*ssa.Function
 	ModelTerms map[string]*smt.Term
+	// recursive spec functions
+	recOpen  []recOpenT
+	recDefs  map[string]*recDef
+	recOrder []string
+	recMemo  map[string]string
+	recReads map[string]map[string]*smt.Term
+	recCtr   int
+	readLog  map[string]*smt.Term
+	idxTerms map[int]bool
+	idxOrder []*smt.Term
+}
+
+func (ex *Exec) noteIdx(t *smt.Term) {
+	if t.Kind == smt.KLit || ex.quiet > 0 {
+		return
+	}
+	if ex.idxTerms == nil {
+		ex.idxTerms = map[int]bool{}
+	}
+	if !ex.idxTerms[t.ID] {
+		ex.idxTerms[t.ID] = true
+		ex.idxOrder = append(ex.idxOrder, t)
+	}
+}
+
+type recOpenT struct {
+	pd          *PredDecl
+	st          *State
+	placeholder string
 }
 
 type Frame struct {
@@ -779,7 +808,10 @@ func (ex *Exec) enterLoop(fr *Frame, li *loopInfo, h *ssa.BasicBlock, st *State,
 		ex.havocAll(st)
 	} else {
 		for _, k := range mods.sortedKeys() {
-			hk := ex.keys[k]
+			hk := ex.Prog.KeyInfo(ex, k)
+			if hk == nil {
+				continue
+			}
 			if base, ok := mods.refOnly[k]; ok && len(base) > 0 {
 				// stores only through loop-invariant base pointers: havoc just those objects
 				h0 := ex.heapGet(st, hk)
